@@ -230,6 +230,15 @@ class Ctx:
     def hyps(self) -> List[z3.BoolRef]:
         return list(self.axioms) + list(self.pc)
 
+    def lemma(self, name: str, hyps: List[z3.BoolRef], goal: z3.BoolRef, **info: Any) -> None:
+        """A consequence of already-stated obligations (its hypotheses must each be the
+        goal of another obligation of the same path): discharged WITHOUT the axioms and the
+        path condition, which keeps the nonlinear query small."""
+        ob = Obligation(name, list(hyps), goal, dict(info, lemma_over=[str(h)[:120] for h in hyps]))
+        ob._pc = []  # type: ignore[attr-defined]
+        ob._ctx = None  # type: ignore[attr-defined]
+        self.obligations.append(ob)
+
     def oblige(self, name: str, goal: Any, **info: Any) -> None:
         if isinstance(goal, bool):
             goal = z3.BoolVal(goal)
